@@ -107,6 +107,18 @@ class Sys05(e1.System):
     def obs_digest(self, post, m2):
         return e1.sha([sorted(m2['inst']), m2['ili']])
 
+    def declared_annotation_rows(self, table):
+        """the tag / pronunciation rows (canonical form) that x:1 puts on forms of a:1, taken from a fresh
+        database holding just a:1 and x:1 minus one holding just a:1"""
+        key = ('declared', table)
+        if key not in self._fresh:
+            withx = list(self.fresh(['a:1', 'x:1'], False)['C'].get(table, []))
+            for row in self.fresh(['a:1'], False)['C'].get(table, []):
+                if row in withx:
+                    withx.remove(row)
+            self._fresh[key] = withx
+        return self._fresh[key]
+
     # -- oracle ----------------------------------------------------------------
     def fresh(self, inst, ili):
         """canonical dump + transcripts of a fresh database with exactly these lexicons"""
@@ -182,7 +194,8 @@ class Sys05(e1.System):
                         else:
                             g = None
                             break
-                    if g is not None and all(str(r[1]).startswith(('xtagtext', 'xprontext')) for r in g):
+                    declared = self.declared_annotation_rows(t)
+                    if g is not None and all(r in declared for r in g):
                         residue = True
                     else:
                         V.append((f'content:{t}', f'after {hist}: {t} rows differ beyond extension residue: '
@@ -209,13 +222,12 @@ class Sys05(e1.System):
 
 
 def _strip_x(T):
+    """per-selection transcripts without the annotations x:1 declares on base forms (on those forms only): they
+    survive its removal and double when it is added again - the recorded finding; everything else stays"""
     import copy
     T = copy.deepcopy(T)
     for sel in T.values():
-        for w in sel['words'].values():
-            for f in w['forms']:
-                f[3] = [t for t in f[3] if not str(t[0]).startswith('xtagtext')]
-                f[4] = [p for p in f[4] if not str(p[0]).startswith('xprontext')]
+        universe.strip_annotations(sel['words'])
     return T
 
 
